@@ -255,3 +255,59 @@ fn c19_crc7_direct_6() {
     kani::cover!(len == 5 && got == 0x95);
     kani::cover!(len == 0);
 }
+
+// ------------------------------------------------ length structure (fold) ---
+// The induction over message length relies on crc16/crc7 being plain folds of
+// the step function over *every* byte of the slice.  These harnesses check
+// that on the real code for every length up to N with sparse symbolic content
+// (two symbolic bytes at symbolic positions, the rest zero): a length-
+// dependent special case, a dropped tail byte or chunked processing shows up
+// as a difference from the bit-serial reference at some length.
+macro_rules! crc_len_structure {
+    ($name:ident, $n:expr, $unw:expr) => {
+        #[kani::proof]
+        #[kani::unwind($unw)]
+        fn $name() {
+            let n: usize = kani::any();
+            let i: usize = kani::any();
+            let j: usize = kani::any();
+            kani::assume(n <= $n && i < $n && j < $n);
+            let mut m = [0u8; $n];
+            m[i] = kani::any();
+            m[j] = kani::any();
+            assert!(crc16(&m[..n]) == ref16(&m[..n]), "crc16.len: differs from reference at some length (not a fold over every byte)");
+            assert!(crc7(&m[..n]) == ref7(&m[..n]), "crc7.len: differs from reference at some length (not a fold over every byte)");
+            kani::cover!(n == $n && i == $n - 1 && m[i] != 0);
+            kani::cover!(n == 16 && j == 15);
+        }
+    };
+}
+crc_len_structure!(c19_crc_len_structure_40, 40, 42);
+crc_len_structure!(c19_crc_len_structure_130, 130, 132);
+crc_len_structure!(c19_crc_len_structure_520, 520, 522);
+
+/// All messages of length 0..=17 (covers 15/16-byte register images) for crc7.
+#[kani::proof]
+#[kani::unwind(19)]
+fn c19_crc7_direct_17() {
+    let m: [u8; 17] = kani::any();
+    let len: usize = kani::any();
+    kani::assume(len <= 17);
+    let got = crc7(&m[..len]);
+    assert!(got == ref7(&m[..len]), "crc7.direct: differs from bit-serial reference");
+    kani::cover!(len == 16);
+    kani::cover!(len == 17 && got == 0x01);
+}
+
+/// All messages of length 0..=17 for crc16 (16 = CSD/CID register length).
+#[kani::proof]
+#[kani::unwind(19)]
+fn c19_crc16_direct_17() {
+    let m: [u8; 17] = kani::any();
+    let len: usize = kani::any();
+    kani::assume(len <= 17);
+    let got = crc16(&m[..len]);
+    assert!(got == ref16(&m[..len]), "crc16.direct: differs from bit-serial reference");
+    kani::cover!(len == 16);
+    kani::cover!(len == 17 && got == 0);
+}
